@@ -22,7 +22,7 @@ ASSUMPTIONS = ["relative tolerance 1e-9", "composites have at least one componen
 NT_FLOOR = 0.4
 
 RHO_U = ["g/cm3", "kg/m3", "g/l", "kg/l", "lb/ft3"]
-N_U = ["cm-3", "m-3", "l-1", "mm-3"]
+N_U = ["cm-3", "m-3", "l-1", "mm-3", "pm-3", "nm-3"]      # 1e21 cm-3 = 1e-9 pm-3: tiny magnitudes in the given unit
 V_U = ["l", "ml", "cm3", "m3", "gal"]
 DA_G = R.UNITS["Da"].mag / R.UNITS["g"].mag
 
@@ -45,6 +45,8 @@ def matter_case(draw):
         its = draw(F10.items(draw(st.integers(0, 1))))
         obj = {"items": [[i, j] for i, j in its],
                "form": draw(st.sampled_from(["string", "string", "dict", "add", "add_in_with", "dict_frac"]))}
+        # the documented 'proportion' of a stand-alone substance is its share in a mixture, not part of its formula unit
+        obj["proportion"] = draw(st.sampled_from([None, None, None, 2, 0.5, 3.0]))
         if obj["form"] == "dict_frac":
             # amounts below one (an alloy given by fractions); a sibling with the same symbols is built first
             obj["frac"] = draw(st.sampled_from([0.5, 0.25, 0.1, 0.8]))
@@ -88,6 +90,8 @@ def build(case, which):
         kw["volume"] = Quantity(case["volume"] * fac("l") / fac(vu), vu)
     nat = case["natural"]
     o = case["obj"]
+    if case["kind"] == "substance" and o.get("proportion"):
+        kw["proportion"] = o["proportion"]
     if case["kind"] == "element":
         obj = Element(o["expr"], proportion=o["proportion"], natural=nat, **kw)
         s = o["sp"]
